@@ -1,7 +1,7 @@
 (* Extraction of the executable model.  Only ExtrOcamlBasic is used: Z, positive and nat stay the extracted inductive types. *)
 Require Extraction.
 Require Import ExtrOcamlBasic.
-From CS Require Import Actions BinomDef NAdvance Multistage Mixed Online Ops RevSeq HRevSeq RevConv Exec Sched Binomial.
+From CS Require Import Actions BinomDef NAdvance Multistage Mixed Online Ops RevSeq HRevSeq RevConv Exec Sched Binomial ActVal.
 Extraction Language OCaml.
 Separate Extraction
   Actions Sched.run_case Sched.construct
@@ -9,4 +9,5 @@ Separate Extraction
   Binomial.optimal_extra_steps Binomial.optimal_steps_binomial Binomial.optimal_steps_mixed
   Mixed.memo_warm Mixed.tabulate Mixed.tget
   RevSeq.get_opt_0_table RevSeq.get_opt_inf_table RevSeq.argmin RevSeq.mxrr RevSeq.revolve_top RevSeq.disk_revolve_top RevSeq.periodic_top
-  HRevSeq.get_hopt_table HRevSeq.hrevolve HRevSeq.argmin RevConv.sequence BinomDef.beta.
+  HRevSeq.get_hopt_table HRevSeq.hrevolve HRevSeq.argmin RevConv.sequence BinomDef.beta
+  ActVal.act_repr ActVal.act_parse ActVal.act_len ActVal.act_iter ActVal.act_mem.
